@@ -1470,15 +1470,21 @@ class ApertureStats:
 
             idx = np.where(covar_det < delta2)[0]
             while idx.size > 0:
+                prev_det = covar_det
                 covar[idx, 0, 0] += delta
                 covar[idx, 1, 1] += delta
                 covar_det = np.linalg.det(covar)
 
-                # a matrix whose determinant turns negative cannot be
-                # regularised (and would otherwise loop forever)
-                idx_neg = np.where(covar_det < 0)[0]
-                covar[idx_neg] = np.array([[np.nan, np.nan],
+                # a matrix whose determinant turns negative, or no
+                # longer grows because the increment is absorbed by
+                # huge diagonal elements, cannot be regularised (and
+                # would otherwise loop forever)
+                stuck = np.zeros(covar_det.shape, dtype=bool)
+                stuck[idx] = covar_det[idx] <= prev_det[idx]
+                idx_bad = np.where((covar_det < 0) | stuck)[0]
+                covar[idx_bad] = np.array([[np.nan, np.nan],
                                            [np.nan, np.nan]])
+                covar_det[idx_bad] = np.nan
 
                 idx = np.where((covar_det >= 0) & (covar_det < delta2))[0]
         return covar
